@@ -89,6 +89,62 @@ def escaping_world(rng, S):
     return r.xml
 
 
+def registered_world(rng, S, ET):
+    """types known from the runtime dump only (boxed types without a structure, enumerations, flags, interfaces, classes) with
+    constructors, methods and plain functions that the scanner attaches to them by symbol prefix"""
+    d = ['<?xml version="1.0"?><dump>']
+    syms, comments = [], []
+    line = [10]
+
+    def at():
+        line[0] += rng.randint(1, 9)
+        return dict(line=line[0], fn=rng.choice(['/src/foo.h', '/src/foo-types.h']))
+
+    def attach(prefix, tname, n_static=2):
+        names = rng.sample(['helper', 'lookup', 'from_string', 'quark', 'count', 'reset_all'], rng.randint(1, n_static))
+        for nm in names:
+            f = 'foo_%s_%s' % (prefix, nm)
+            syms.append(S.func(f, rng.choice([S.basic('void'), S.td('gint'), S.td('gboolean')]),
+                               [S.param('n', S.td('gint'))] if rng.random() < 0.7 else [], **at()))
+            if rng.random() < 0.5:
+                comments.append(('/**\n * %s:\n%s *\n * Does %s & more <things>.\n *\n * Since: 1.%d\n */'
+                                 % (f, ' * @n: a number\n' if syms[-1].base_type.child_list else '', nm, rng.randint(0, 9)), '/src/foo.c', line[0]))
+    for i in range(rng.randint(1, 3)):
+        t = 'FooBx%d' % i
+        d.append('<boxed name="%s" get-type="foo_bx%d_get_type"/>' % (t, i))
+        syms.append(S.func('foo_bx%d_get_type' % i, S.td('GType'), [], **at()))
+        if rng.random() < 0.7:
+            syms.append(S.func('foo_bx%d_new' % i, S.ptr(S.td(t)), [], **at()))
+        if rng.random() < 0.7:
+            syms.append(S.func('foo_bx%d_copy' % i, S.ptr(S.td(t)), [S.param('self', S.ptr(S.td(t)))], **at()))
+        if rng.random() < 0.8:
+            attach('bx%d' % i, t)
+    for i in range(rng.randint(0, 2)):
+        t = 'FooKind%d' % i
+        flags = rng.random() < 0.4
+        d.append('<%s name="%s" get-type="foo_kind%d_get_type"><member name="FOO_KIND%d_A" nick="a" value="1"/><member name="FOO_KIND%d_B" nick="b" value="2"/></%s>'
+                 % ('flags' if flags else 'enum', t, i, i, i, 'flags' if flags else 'enum'))
+        syms.append(S.func('foo_kind%d_get_type' % i, S.td('GType'), [], **at()))
+        syms.append(S.enum_typedef(t, [('FOO_KIND%d_A' % i, 1, False), ('FOO_KIND%d_B' % i, 2, False)], bitfield=flags, **at()))
+        attach('kind%d' % i, t)
+    if rng.random() < 0.6:
+        d.append('<interface name="FooIface" get-type="foo_iface_get_type"><prerequisite name="GObject"/></interface>')
+        syms.append(S.func('foo_iface_get_type', S.td('GType'), [], **at()))
+        if rng.random() < 0.5:
+            syms.append(S.func('foo_iface_poke', S.basic('void'), [S.param('self', S.ptr(S.td('FooIface')))], **at()))
+        attach('iface', 'FooIface')
+    if rng.random() < 0.6:
+        d.append('<class name="FooObj" get-type="foo_obj_get_type" parents="GObject"/>')
+        syms.append(S.func('foo_obj_get_type', S.td('GType'), [], **at()))
+        syms.append(S.func('foo_obj_new', S.ptr(S.td('FooObj')), [], **at()))
+        attach('obj', 'FooObj')
+    d.append('</dump>')
+    rng.shuffle(syms)
+    dump = ET.ElementTree(ET.fromstring(''.join(d)))
+    r = S.run(syms, comments, dump=dump, includes=['GLib', 'GObject'])
+    return r.xml
+
+
 def main(tier, seed):
     ck = Check('C07', tier, seed)
     ck.assumptions += ['the cycle is the project\'s own (GIRParser().parse + GIRWriter, as scannermain.passthrough_gir / --reparse-validate do it)',
@@ -108,6 +164,8 @@ def main(tier, seed):
                 docs.append((what, xml))
             for b in range(10 if tier == 'quick' else 150):
                 docs.append(('structure members #%d' % b, field_world(rng, S, ET)))
+            for b in range(8 if tier == 'quick' else 100):
+                docs.append(('registered types #%d' % b, registered_world(rng, S, ET)))
             for b in range(10 if tier == 'quick' else 150):
                 w = escaping_world(rng, S)
                 if isinstance(w, tuple):
